@@ -12,7 +12,7 @@ from quansino.moves.displacement import (
     DisplacementMove,
     HamiltonianDisplacementMove,
 )
-from quansino.moves.exchange import ExchangeMove
+from quansino.moves.exchange import CompositeExchangeMove, ExchangeMove
 from quansino.registry import register_class
 
 if TYPE_CHECKING:
@@ -22,6 +22,7 @@ __all__ = [
     "BaseMove",
     "CellMove",
     "CompositeDisplacementMove",
+    "CompositeExchangeMove",
     "DisplacementMove",
     "ExchangeMove",
     "HamiltonianDisplacementMove",
@@ -33,6 +34,7 @@ moves_registry: dict[str, type[Move]] = {
     "CompositeMove": CompositeMove,
     "DisplacementMove": DisplacementMove,
     "CompositeDisplacementMove": CompositeDisplacementMove,
+    "CompositeExchangeMove": CompositeExchangeMove,
     "ExchangeMove": ExchangeMove,
     "HamiltonianDisplacementMove": HamiltonianDisplacementMove,
 }
